@@ -268,6 +268,45 @@ class Ctx:
         self.configs_used.add(config)
         return fb
 
+    def build_units(self, subdirs=None):
+        """Translation units of the repository's own build (tests and examples from compile_commands.json)."""
+        db = os.path.join(self.repo, '_build', 'compile_commands.json')
+        try:
+            with open(db) as f:
+                entries = json.load(f)
+        except (OSError, ValueError):
+            return []
+        out = []
+        for e in entries:
+            p = e['file']
+            if not os.path.exists(p) or p.endswith('test_main.cpp'):
+                continue
+            if subdirs and not any(('/' + s + '/') in p for s in subdirs):
+                continue
+            out.append(p)
+        return sorted(set(out))
+
+    def each_unit_facts(self, unit_paths, config='ndebug14', batch=16):
+        """Yield (unit path, FactBase) one at a time (extraction parallel in batches, load sequential to bound memory)."""
+        build_tool()
+        th = self.thash()
+        roots = [os.path.join(self.repo, 'include', 'osmium')]
+        for i in range(0, len(unit_paths), batch):
+            chunk = unit_paths[i:i + batch]
+            with ThreadPoolExecutor(max_workers=16) as ex:
+                outs = list(ex.map(lambda p: self._try_extract(p, config, roots, th), chunk))
+            for p, o in zip(chunk, outs):
+                if o is None:
+                    continue
+                self.units_used.append((p, config))
+                yield p, FactBase(o)
+
+    def _try_extract(self, p, config, roots, th):
+        try:
+            return extract(self.repo, p, config, roots, th, self.defs)
+        except AnalysisBroken:
+            return None  # a unit of the repository's build that does not parse with clang is skipped (noted by count)
+
     def selftest_facts(self, name, config='ndebug14'):
         """Fact base of a positive example TU under /verif/selftest/positive (never part of /repo)."""
         build_tool()
@@ -296,6 +335,31 @@ def load_known_findings():
             kv = dict(tok.split('=', 1) for tok in body.split() if '=' in tok)
             out.append({'property': kv.get('property'), 'rule': kv.get('rule'), 'key': kv.get('key'), 'text': text.strip()})
     return out
+
+
+def run_selftest(prop):
+    """Run selftest/run.py for one property (each mutant on a scratch copy, quick tier) and summarise."""
+    import tempfile
+    out = tempfile.NamedTemporaryFile(prefix='verif-selftest-', suffix='.json', dir='/var/tmp', delete=False)
+    out.close()
+    try:
+        env = dict(os.environ, VERIF_NO_SELFTEST='1')
+        env.pop('VERIF_EVIDENCE_DIR', None)
+        r = subprocess.run([sys.executable, os.path.join(VERIF, 'selftest', 'run.py'), prop, '-j', '8', '--json', out.name],
+                           stdout=subprocess.PIPE, stderr=subprocess.STDOUT, text=True, env=env, cwd=VERIF, timeout=3000)
+        with open(out.name) as f:
+            res = json.load(f)
+        return {'mutants': len(res), 'fired': sum(1 for x in res if x['status'] == 'fired'),
+                'skipped': [x['id'] for x in res if x['status'] == 'skipped'],
+                'not_as_expected': [{'id': x['id'], 'status': x['status']} for x in res if x['status'] not in ('fired', 'skipped')],
+                'rules_exercised': sorted({x['rule'] for x in res if x['status'] == 'fired'})}
+    except Exception as e:  # noqa: BLE001 - self-validation must never change the verdict
+        return {'error': str(e)[:300]}
+    finally:
+        try:
+            os.unlink(out.name)
+        except OSError:
+            pass
 
 
 def run_check(prop, tier, repo, seed=0, replay=None):
@@ -367,6 +431,11 @@ def run_check(prop, tier, repo, seed=0, replay=None):
             lines.append('VIOLATION property=%s replay=%s' % (prop, rp))
     print('\n'.join(lines)) if lines else None
 
+    # thorough tier: self-validation with the seeded edits of selftest/mutants (recorded, never part of the verdict)
+    selftest = None
+    if tier == 'thorough' and not replay and os.environ.get('VERIF_NO_SELFTEST') != '1' and os.path.abspath(repo) == '/repo':
+        selftest = run_selftest(prop)
+
     # evidence
     insts = list(R.instances.values())
     by_rule = {}
@@ -407,6 +476,7 @@ def run_check(prop, tier, repo, seed=0, replay=None):
             'repo_tree_sha256': ctx.thash() if ctx._thash else None,
             'known_findings_present': [{'rule': i.rule, 'key': i.key} for i, _k in known_hit],
             'notes': R.notes,
+            'selftest_mutants': selftest,
             'analysis_broken': R.broken_msgs,
             'exhaustive': False,
         },
